@@ -18,6 +18,7 @@ import (
 	"strconv"
 	"strings"
 	"sync"
+	"time"
 
 	cachepkg "github.com/jdillenkofer/pithos/internal/cache"
 	"github.com/jdillenkofer/pithos/internal/cache/evictionpolicy/evictnothing"
@@ -144,6 +145,7 @@ type c20Env struct {
 	buckets   []storage.BucketName
 	inner, mw storage.Storage
 	uploads   []c20Upload
+	vids      []string // real version ids in creation order (the case line refers to them by ordinal)
 	handles   []*c20Handle
 	committed map[string][]c20Version
 	fails     []string
@@ -177,6 +179,38 @@ func (e *c20Env) compare(what string, mw, inner *storage.Object) {
 	if len(diff) > 0 {
 		e.fail(what+"-differs", strings.Join(diff, " "))
 	}
+}
+
+// noteVid records a version id handed out by the storage (once, in creation order)
+func (e *c20Env) noteVid(id *string) {
+	if id == nil || *id == "null" || *id == "" {
+		return
+	}
+	for _, v := range e.vids {
+		if v == *id {
+			return
+		}
+	}
+	e.vids = append(e.vids, *id)
+}
+
+// vref decodes a version reference of the case line: N/"" none, n = "null", v<i> = i-th created id
+func (e *c20Env) vref(t string) *string {
+	switch {
+	case t == "" || t == "N":
+		return nil
+	case t == "n":
+		s := "null"
+		return &s
+	case t[0] == 'v':
+		i := c20Atoi(t[1:])
+		s := "00000000000000000000000000"
+		if i >= 0 && i < len(e.vids) {
+			s = e.vids[i]
+		}
+		return &s
+	}
+	return nil
 }
 
 func c20Sum(b []byte) string { s := md5.Sum(b); return hex.EncodeToString(s[:]) }
@@ -240,7 +274,7 @@ func (e *c20Env) op(f []string) string {
 	n := func(i int) int { return c20Atoi(arg(i)) }
 	st := e.mw
 	switch arg(0) {
-	case "P", "A", "D", "X", "T", "U", "R", "MC", "H", "G", "GO":
+	case "P", "A", "D", "X", "T", "U", "R", "MC", "H", "G", "GO", "V":
 		if n(1) != 0 && n(1) != 1 {
 			if arg(0) == "GO" {
 				e.handles = append(e.handles, &c20Handle{})
@@ -263,7 +297,10 @@ func (e *c20Env) op(f []string) string {
 		default:
 			opts.IfMatchETag = c20ETag(c)
 		}
-		_, err := st.PutObject(c20Ctx, e.B(b), c20K(k), c20CType(n(4)), strings.NewReader(string(c20Body(cid))), nil, opts)
+		pres, err := st.PutObject(c20Ctx, e.B(b), c20K(k), c20CType(n(4)), strings.NewReader(string(c20Body(cid))), nil, opts)
+		if err == nil {
+			e.noteVid(pres.VersionID)
+		}
 		e.recordCommitted(b, k)
 		return c20Err(err)
 	case "A":
@@ -274,22 +311,34 @@ func (e *c20Env) op(f []string) string {
 			opts = &storage.AppendObjectOptions{WriteOffset: &off}
 		}
 		_, err := st.AppendObject(c20Ctx, e.B(b), c20K(k), strings.NewReader(string(c20Body(cid))), nil, opts)
+		if err == nil {
+			// AppendObjectResult carries no version id: ask the inner storage directly
+			if o, herr := e.inner.HeadObject(c20Ctx, e.B(b), c20K(k), nil); herr == nil {
+				e.noteVid(o.VersionID)
+			}
+		}
 		e.recordCommitted(b, k)
 		return c20Err(err)
 	case "C":
 		sb, sk, db, dk := n(1), n(2), n(3), n(4)
 		opts := &storage.CopyObjectOptions{ReplaceMetadata: n(5) == 1, ContentType: c20CType(n(6)), Metadata: c20Meta(n(7)),
 			ReplaceTags: n(8) == 1, Tags: c20Tags(n(9)), StorageClass: c20Class(n(10))}
-		_, err := st.CopyObject(c20Ctx, e.B(sb), c20K(sk), e.B(db), c20K(dk), opts)
+		cres, err := st.CopyObject(c20Ctx, e.B(sb), c20K(sk), e.B(db), c20K(dk), opts)
+		if err == nil {
+			e.noteVid(cres.VersionID)
+		}
 		e.recordCommitted(db, dk)
 		return c20Err(err)
 	case "D":
 		b, k := n(1), n(2)
 		var opts *storage.DeleteObjectOptions
-		if arg(3) != "N" {
-			opts = &storage.DeleteObjectOptions{IfMatchETag: c20ETag(arg(3))}
+		if arg(3) != "N" || e.vref(arg(4)) != nil {
+			opts = &storage.DeleteObjectOptions{IfMatchETag: c20ETag(arg(3)), VersionID: e.vref(arg(4))}
 		}
-		_, err := st.DeleteObject(c20Ctx, e.B(b), c20K(k), opts)
+		dres, err := st.DeleteObject(c20Ctx, e.B(b), c20K(k), opts)
+		if err == nil && dres != nil && dres.IsDeleteMarker && e.vref(arg(4)) == nil {
+			e.noteVid(dres.VersionID)
+		}
 		e.recordCommitted(b, k)
 		return c20Err(err)
 	case "X":
@@ -297,8 +346,8 @@ func (e *c20Env) op(f []string) string {
 		var entries []storage.DeleteObjectsInputEntry
 		var ks []int
 		for _, p := range f[2:] {
-			kc := strings.SplitN(p, ":", 2)
-			if len(kc) != 2 {
+			kc := strings.Split(p, ":")
+			if len(kc) != 2 && len(kc) != 3 {
 				continue
 			}
 			k := c20Atoi(kc[0])
@@ -306,6 +355,9 @@ func (e *c20Env) op(f []string) string {
 			en := storage.DeleteObjectsInputEntry{Key: c20K(k)}
 			if kc[1] != "N" {
 				en.IfMatchETag = c20ETag(kc[1])
+			}
+			if len(kc) == 3 {
+				en.VersionID = e.vref(kc[2])
 			}
 			entries = append(entries, en)
 		}
@@ -317,6 +369,7 @@ func (e *c20Env) op(f []string) string {
 		if err == nil {
 			out += "="
 			for _, en := range res.Entries {
+				e.noteVid(en.DeleteMarkerVersionID)
 				switch {
 				case en.Deleted:
 					out += "d"
@@ -330,19 +383,27 @@ func (e *c20Env) op(f []string) string {
 		return out
 	case "T":
 		b, k := n(1), n(2)
-		err := st.PutObjectTagging(c20Ctx, e.B(b), c20K(k), c20Tags(n(3)), nil)
+		var topts *storage.ObjectTaggingOptions
+		if v := e.vref(arg(4)); v != nil {
+			topts = &storage.ObjectTaggingOptions{VersionID: v}
+		}
+		err := st.PutObjectTagging(c20Ctx, e.B(b), c20K(k), c20Tags(n(3)), topts)
 		e.recordCommitted(b, k)
 		return c20Err(err)
 	case "U":
 		b, k := n(1), n(2)
-		err := st.DeleteObjectTagging(c20Ctx, e.B(b), c20K(k), nil)
+		var topts *storage.ObjectTaggingOptions
+		if v := e.vref(arg(3)); v != nil {
+			topts = &storage.ObjectTaggingOptions{VersionID: v}
+		}
+		err := st.DeleteObjectTagging(c20Ctx, e.B(b), c20K(k), topts)
 		e.recordCommitted(b, k)
 		return c20Err(err)
 	case "R":
 		b, k := n(1), n(2)
 		var opts *storage.TransitionObjectStorageClassOptions
-		if arg(4) != "N" {
-			opts = &storage.TransitionObjectStorageClassOptions{IfMatchETag: c20ETag(arg(4))}
+		if arg(4) != "N" || e.vref(arg(5)) != nil {
+			opts = &storage.TransitionObjectStorageClassOptions{IfMatchETag: c20ETag(arg(4)), VersionID: e.vref(arg(5))}
 		}
 		cls := c20Class(n(3))
 		target := ""
@@ -371,15 +432,38 @@ func (e *c20Env) op(f []string) string {
 		case "MP":
 			_, err = st.UploadPart(c20Ctx, e.B(up.b), c20K(up.k), up.id, int32(n(2)), strings.NewReader(string(c20Body(n(3)))), nil)
 		case "MF":
-			_, err = st.CompleteMultipartUpload(c20Ctx, e.B(up.b), c20K(up.k), up.id, nil, nil)
+			var cres *storage.CompleteMultipartUploadResult
+			cres, err = st.CompleteMultipartUpload(c20Ctx, e.B(up.b), c20K(up.k), up.id, nil, nil)
+			if err == nil {
+				e.noteVid(cres.VersionID)
+			}
 			e.recordCommitted(up.b, up.k)
 		case "MA":
 			err = st.AbortMultipartUpload(c20Ctx, e.B(up.b), c20K(up.k), up.id)
 		}
 		return c20Err(err)
+	case "V":
+		stt := storage.BucketVersioningStatusEnabled
+		switch arg(2) {
+		case "E":
+		case "S":
+			stt = storage.BucketVersioningStatusSuspended
+		default:
+			return "BadOp"
+		}
+		if len(f) != 3 {
+			return "BadOp"
+		}
+		return c20Err(st.PutBucketVersioningConfiguration(c20Ctx, e.B(n(1)), &storage.BucketVersioningConfiguration{Status: &stt}))
 	case "H":
 		b, k := n(1), n(2)
 		opts := c20HeadOpts(arg(3), arg(4))
+		if v := e.vref(arg(5)); v != nil {
+			if opts == nil {
+				opts = &storage.HeadObjectOptions{}
+			}
+			opts.VersionID = v
+		}
 		io_, ierr := e.inner.HeadObject(c20Ctx, e.B(b), c20K(k), opts)
 		o, err := st.HeadObject(c20Ctx, e.B(b), c20K(k), opts)
 		if c20Err(ierr) != c20Err(err) {
@@ -393,13 +477,23 @@ func (e *c20Env) op(f []string) string {
 		return "ok=" + c20Desc(o, nil, false)
 	case "G", "GO":
 		b, k := n(1), n(2)
-		if e.pending(b, k) {
+		ver := e.vref(arg(5))
+		if ver != nil && arg(0) == "GO" {
+			return "BadOp"
+		}
+		if ver == nil && e.pending(b, k) {
 			if arg(0) == "GO" {
 				e.handles = append(e.handles, &c20Handle{b: b, k: k})
 			}
 			return "BLOCK"
 		}
 		opts := c20GetOpts(arg(3), arg(4))
+		if ver != nil {
+			if opts == nil {
+				opts = &storage.GetObjectOptions{}
+			}
+			opts.VersionID = ver
+		}
 		io_, irs, ierr := e.inner.GetObject(c20Ctx, e.B(b), c20K(k), nil, opts)
 		var ibody []byte
 		if ierr == nil {
@@ -460,7 +554,30 @@ func (e *c20Env) op(f []string) string {
 	return "BadOp"
 }
 
-func (c20) Run(in string, scratch string) Result {
+// Run executes the case under a watchdog: a call that never returns (e.g. a GET waiting for an
+// in-flight fill that the same goroutine holds open) is an observable failure of the implementation,
+// not a reason for the whole check to hang until the harness timeout.
+func (p c20) Run(in string, scratch string) Result {
+	done := make(chan Result, 1)
+	go func() {
+		defer func() {
+			if e := recover(); e != nil {
+				done <- Result{Out: "PANIC", Oracle: "FAIL:panic: " + fmt.Sprint(e), Tags: []string{"panic"}}
+			}
+		}()
+		done <- p.run(in, scratch)
+	}()
+	select {
+	case r := <-done:
+		return r
+	case <-time.After(c20CaseTimeout):
+		return Result{Out: "TIMEOUT", Oracle: "FAIL:timeout: a storage call did not return within " + c20CaseTimeout.String(), Tags: []string{"timeout"}}
+	}
+}
+
+const c20CaseTimeout = 60 * time.Second
+
+func (c20) run(in string, scratch string) Result {
 	toks := strings.SplitN(in, " ", 2)
 	if len(toks) != 2 || (toks[0] != "c0" && toks[0] != "c1" && toks[0] != "k0") {
 		return Result{Out: "PARSE-ERROR", Tags: []string{"invalid"}}
@@ -541,11 +658,18 @@ func c20TagsOf(mode string, ops []string, seen map[string]bool) []string {
 	for _, o := range ops {
 		f := strings.Split(o, ",")
 		has[f[0]] = true
+		if f[0] != "GF" && f[0] != "GX" && f[0] != "MP" && f[0] != "MF" && f[0] != "MA" {
+			for _, x := range f[1:] {
+				if x == "n" || strings.HasSuffix(x, ":n") || (len(x) > 1 && x[0] == 'v') || strings.Contains(x, ":v") {
+					has["vid"] = true
+				}
+			}
+		}
 		if (f[0] == "P" || f[0] == "A" || f[0] == "MP") && len(f) > 3 && f[3] == "0" {
 			has["empty"] = true
 		}
 	}
-	for _, k := range []string{"R", "A", "C", "X", "MF", "GO", "T", "empty"} {
+	for _, k := range []string{"R", "A", "C", "X", "MF", "GO", "T", "empty", "V", "vid"} {
 		if has[k] {
 			tags = append(tags, "has:"+k)
 		}
@@ -576,6 +700,9 @@ type c20Gen struct {
 	handles               int
 	open                  []int // handle ordinals not yet finished
 	ops                   []string
+	vers                  bool   // generate version ids / versioning toggles
+	vidEst                int    // upper bound of the version ids created so far
+	vstate                [2]int // 0 unset, 1 enabled, 2 suspended (bucket 1 starts enabled)
 }
 
 func (g *c20Gen) cid() int {
@@ -638,22 +765,114 @@ func (g *c20Gen) bk() (int, int) {
 	}
 	return b, k
 }
+// a version reference: mostly none; otherwise biased to the most recently created ids (likely current)
+func (g *c20Gen) vr(p int) string {
+	if !g.vers || !g.r.Chance(p) {
+		return "N"
+	}
+	x := g.r.Intn(100)
+	switch {
+	case x < 18:
+		return "n"
+	case x < 24:
+		return "v" + strconv.Itoa(g.vidEst+g.r.Intn(3))
+	case g.vidEst == 0:
+		return "v0"
+	case x < 75:
+		return "v" + strconv.Itoa(g.vidEst-1-g.r.Intn(min(g.vidEst, 3)))
+	}
+	return "v" + strconv.Itoa(g.r.Intn(g.vidEst))
+}
+func (g *c20Gen) mayAlloc(b int) {
+	if g.vstate[b] == 1 {
+		g.vidEst++
+	}
+}
 func (g *c20Gen) add(format string, a ...interface{}) { g.ops = append(g.ops, fmt.Sprintf(format, a...)) }
 func (g *c20Gen) read(b, k int) {
 	x := g.r.Intn(100)
 	switch {
 	case x < 40:
-		g.add("H,%d,%d,%s,%s", b, k, g.cond(15), g.cond(12))
+		g.add("H,%d,%d,%s,%s,%s", b, k, g.cond(15), g.cond(12), g.vr(12))
 	case x < 85 || !g.allowGO:
-		g.add("G,%d,%d,%s,%s", b, k, g.cond(15), g.cond(12))
+		g.add("G,%d,%d,%s,%s,%s", b, k, g.cond(15), g.cond(12), g.vr(12))
 	default:
 		g.add("GO,%d,%d,%s,%s", b, k, g.cond(8), g.cond(6))
 		g.open = append(g.open, g.handles)
 		g.handles++
 	}
 }
+func (g *c20Gen) toggle(b int) {
+	if g.vstate[b] == 1 || (g.vstate[b] == 0 && g.r.Chance(40)) {
+		g.add("V,%d,S", b)
+		g.vstate[b] = 2
+	} else {
+		g.add("V,%d,E", b)
+		g.vstate[b] = 1
+	}
+}
+
+// scripted openings: cache the current version, then remove / replace / change it by id
+func (g *c20Gen) scenario() {
+	b := 1
+	if g.r.Chance(35) {
+		b = 0
+		g.add("V,0,E")
+		g.vstate[0] = 1
+	}
+	k := g.r.Intn(3)
+	n := 1 + g.r.Intn(3)
+	for i := 0; i < n; i++ {
+		g.add("P,%d,%d,%d,%d,%d,%d,%d,N", b, k, g.cid(), g.small(), g.small(), g.small(), g.r.Intn(4))
+		g.vidEst++
+	}
+	if g.r.Chance(30) {
+		g.add("D,%d,%d,N,N", b, k)
+		g.vidEst++
+	}
+	if g.r.Chance(25) {
+		g.toggle(b)
+		if g.r.Chance(60) {
+			g.add("P,%d,%d,%d,0,0,0,0,N", b, k, g.cid())
+		}
+	}
+	g.read(b, k)
+	if g.r.Chance(50) {
+		g.add("H,%d,%d,N,N,N", b, k)
+	}
+	cur := "v" + strconv.Itoa(g.vidEst-1)
+	if g.r.Chance(15) {
+		cur = "n"
+	}
+	switch g.r.Intn(6) {
+	case 0, 1:
+		g.add("D,%d,%d,N,%s", b, k, cur)
+	case 2:
+		g.add("X,%d,%d:N:%s", b, k, cur)
+	case 3:
+		g.add("T,%d,%d,%d,%s", b, k, 1+g.r.Intn(2), cur)
+	case 4:
+		if g.allowR {
+			g.add("R,%d,%d,%d,N,%s", b, k, 1+g.r.Intn(3), cur)
+		} else {
+			g.add("U,%d,%d,%s", b, k, cur)
+		}
+	default:
+		g.add("X,%d,%d:N:%s,%d:N:N", b, (k+1)%3, cur, k)
+		if g.vstate[b] != 0 {
+			g.vidEst++
+		}
+	}
+	g.add("G,%d,%d,N,N,N", b, k)
+	g.add("H,%d,%d,N,N,N", b, k)
+}
+
 func (g *c20Gen) step() {
 	b, k := g.bk()
+	if g.vers && g.r.Chance(4) {
+		g.toggle(b)
+		return
+	}
 	x := g.r.Intn(100)
 	switch {
 	case x < 22:
@@ -666,35 +885,46 @@ func (g *c20Gen) step() {
 			}
 		}
 		g.add("P,%d,%d,%d,%d,%d,%d,%d,%s", b, k, g.cid(), g.small(), g.small(), g.small(), g.r.Intn(4), c)
+		g.mayAlloc(b)
 	case x < 30:
 		off := "N"
 		if g.r.Chance(35) {
 			off = strconv.Itoa([]int{0, 7, 64, 8, 71, 14, 1}[g.r.Intn(7)])
 		}
 		g.add("A,%d,%d,%d,%s", b, k, g.cid(), off)
+		g.mayAlloc(b)
 	case x < 38:
 		sb, sk := g.bk()
 		g.add("C,%d,%d,%d,%d,%d,%d,%d,%d,%d,%d", sb, sk, b, k, g.r.Intn(2), g.small(), g.small(), g.r.Intn(2), g.small(), g.r.Intn(4))
+		g.mayAlloc(b)
 	case x < 46:
-		g.add("D,%d,%d,%s", b, k, g.cond(25))
+		v := g.vr(40)
+		g.add("D,%d,%d,%s,%s", b, k, g.cond(25), v)
+		if v == "N" && g.vstate[b] != 0 {
+			g.vidEst++
+		}
 	case x < 51:
 		n := 1 + g.r.Intn(3)
 		es := make([]string, n)
 		for i := range es {
-			es[i] = fmt.Sprintf("%d:%s", g.r.Intn(3), g.cond(30))
+			v := g.vr(35)
+			es[i] = fmt.Sprintf("%d:%s:%s", g.r.Intn(3), g.cond(30), v)
+			if v == "N" && g.vstate[b] != 0 {
+				g.vidEst++
+			}
 		}
 		g.add("X,%d,%s", b, strings.Join(es, ","))
 	case x < 57:
-		g.add("T,%d,%d,%d", b, k, g.small())
+		g.add("T,%d,%d,%d,%s", b, k, g.small(), g.vr(35))
 	case x < 60:
-		g.add("U,%d,%d", b, k)
+		g.add("U,%d,%d,%s", b, k, g.vr(35))
 	case x < 68:
 		if g.allowR {
 			cls := 1 + g.r.Intn(3)
 			if g.r.Chance(8) {
 				cls = []int{0, 4, 9}[g.r.Intn(3)]
 			}
-			g.add("R,%d,%d,%d,%s", b, k, cls, g.cond(20))
+			g.add("R,%d,%d,%d,%s,%s", b, k, cls, g.cond(20), g.vr(35))
 		} else {
 			g.read(b, k)
 		}
@@ -710,6 +940,7 @@ func (g *c20Gen) step() {
 				g.read(b, k)
 			}
 			g.add("MF,%d", u)
+			g.mayAlloc(b)
 		}
 	case x < 77:
 		if g.uploads > 0 || g.r.Chance(20) {
@@ -752,6 +983,7 @@ func (c20) Gen(r *Rng, tier string, n int) []string {
 	out := make([]string, 0, n)
 	for i := 0; i < n; i++ {
 		g := &c20Gen{r: r.Fork()}
+		g.vstate[1] = 1
 		mode := "c0"
 		x := g.r.Intn(100)
 		switch {
@@ -768,6 +1000,11 @@ func (c20) Gen(r *Rng, tier string, n int) []string {
 			mode = "k0"
 		default:
 			g.allowR, g.allowGO, g.allow0 = true, true, true
+		}
+		// two thirds of the histories use version ids, versioning toggles and a scripted opening
+		g.vers = g.r.Chance(66)
+		if g.vers && g.r.Chance(60) {
+			g.scenario()
 		}
 		steps := 6 + g.r.Intn(22)
 		for j := 0; j < steps; j++ {
